@@ -1,6 +1,6 @@
 (* C11 -- the returned define table.  Property theorems only; proofs live in PP/EvalFacts.v,
    PP/FlatFacts.v. *)
-From SV Require Import Eval EvalFacts FlatFacts.
+From SV Require Import Eval EvalFacts FlatFacts IncludeFacts.
 
 (* The table is a finite map with unique keys at every point of a run. *)
 Theorem C11_keys_unique_insert : forall d k v, keys_unique d -> keys_unique (def_insert d k v).
@@ -37,4 +37,28 @@ Proof.
   intros c rec s p ignore strip rd idp t x x' Hk H. unfold step3 in H. rewrite Hk in H.
   cbn in H. unfold emit_node in H. destruct (node_locate t); cbn in H; try discriminate.
   now injection H as <-.
+Qed.
+
+(* What macro usages and `include directives do to the table: the table returned by the nested run
+   (the expansion of the macro body, resp. the included file) -- with the definitions AND the
+   undefinitions made inside -- is the table from there on; a macro without body leaves it alone. *)
+Theorem C11_usage_adopts_table : forall c rec s p ignore strip rdepth idepth t x x' text org nd,
+  resolve_usage c rec t s p (s_defs x) ignore strip (rdepth + 1) idepth = ROk (Some (text, org, nd)) ->
+  usage_enter c rec s p ignore strip rdepth idepth t x = ROk x' -> s_defs x' = nd.
+Proof. exact usage_adopts_table. Qed.
+
+Theorem C11_usage_without_body_keeps_table : forall c rec s p ignore strip rdepth idepth t x x',
+  resolve_usage c rec t s p (s_defs x) ignore strip (rdepth + 1) idepth = ROk None ->
+  usage_enter c rec s p ignore strip rdepth idepth t x = ROk x' -> s_defs x' = s_defs x.
+Proof. exact usage_without_body_keeps_table. Qed.
+
+Theorem C11_include_adopts_table : forall c rec s p strip rdepth idepth t inner sym kw lit l fl x text ops nd,
+  children t = [inner] -> kind inner = K_IncludeCompilerDirectiveDoubleQuote -> children inner = [sym; kw; lit] ->
+  node_locate t = ROk l -> first_leaf lit = Some fl ->
+  (match s_item x with Some i => i =? l_line l | None => false end) = false ->
+  pp_file c rec (resolve_path c (trim_matches 34 (lstr s fl))) (s_defs x) false strip (idepth + 1) = ROk (text, ops, nd) ->
+  exists x', include_enter c rec s p strip rdepth idepth t x = ROk x' /\ s_defs x' = nd.
+Proof.
+  intros. destruct (include_literal_ok c rec s p strip rdepth idepth t inner sym kw lit l fl x text ops nd) as (x' & E & _ & _ & D); auto.
+  exists x'. auto.
 Qed.
